@@ -10,6 +10,11 @@ MERGE_THEOREMS = ["ZwVerif.Merge." + t for t in
                    "spec_by_index", "spec_single", "table_distinct", "table_surj"]] + \
     ["ZwVerif.OrOp." + t for t in ["or_refines", "firstResults_is_first_branch", "drain_pend", "drain_miss"]]
 
+# stages compose: for every upstream machine, an operator that feeds a chain yields per item what the chain yields; chains compose
+PIPE_THEOREMS = ["ZwVerif.Pipe." + t for t in
+                 ["nest_refines", "nest_only_behaviour", "nest_det", "pipeline_refines", "pipeline_only_behaviour", "comp_f",
+                  "comp_assoc_f", "three_stage_pipeline", "drain_det", "listSrc_drain"]]
+
 CORPUS = [
     "(1, 2) ((3, 4) || 5)", "(1,2) (let A := (3,4); A)", "(1,2) ((3,4) dup, 5)", "[(1,2) (3,4)]",
     "[(1,2,3) (10,20,30) add]", "(1,2,3)", "[1, 2, 3] elem", "[1, 2, 3] relem", '"abc" elem', '"abc" relem',
@@ -54,7 +59,8 @@ def templated(g, rng):
 
 
 def run(ctx):
-    ctx.prove("ZwVerif.Props.C01", THEOREMS + MERGE_THEOREMS, extra_targets=["ZwVerif.Props.C01Merge", "ZwVerif.Props.C01Or"])
+    ctx.prove("ZwVerif.Props.C01", THEOREMS + MERGE_THEOREMS + PIPE_THEOREMS,
+              extra_targets=["ZwVerif.Props.C01Merge", "ZwVerif.Props.C01Or", "ZwVerif.Props.C01Pipe"])
     h = zwcorr.Harness(ctx)
     rng = ctx.rng
     n = 1500 if ctx.tier == "quick" else 40000
